@@ -78,7 +78,7 @@ func RunProperty(e *hx.Env, prop string, mon Monitor) *hx.Report {
 		runOne(e, r, prop, f, mon, true)
 	}
 	if os.Getenv("GXH_PLUGIN_MODE") == "exhaustive" { // debugging aid: only the small-scope enumeration
-		x := Exhaustive(e, prop, mon, 7, 14*60)
+		x := Exhaustive(e, prop, mon, 7, 10*60)
 		x.Fill(r)
 		r.Extra["exhaustive_states"] = x.HistoryFlags["exhaustive-states"]
 		return r
@@ -112,9 +112,11 @@ func RunProperty(e *hx.Env, prop string, mon Monitor) *hx.Report {
 	b4.Fill(r)
 	lap("profile adversarial")
 	if e.Thorough() {
-		x := Exhaustive(e, prop, mon, 7, 14*60)
+		x := Exhaustive(e, prop, mon, 8, 8*60)
 		x.Fill(r)
+		lap("small-scope exhaustive")
 		r.Extra["exhaustive_states"] = x.HistoryFlags["exhaustive-states"]
+		r.Extra["exhaustive_depth_completed"] = x.HistoryFlags["exhaustive-depth-completed"]
 		r.Exhaustive = false // bounded scope: all states reachable within the depth over the small alphabet only
 	}
 	r.Extra["profiles"] = []string{"default", "few-identities-long", "provider-and-faults", "stale-binds-and-varying-ranges"}
